@@ -89,9 +89,16 @@ class Def(object):
 
 class Flow(object):
     def __init__(self, fn, pure_self_methods=(), pure_calls=(),
-                 consts=None):
+                 consts=None, inline_props=None, inline_methods=None):
         self.fn = fn
         self.consts = consts      # callable: dotted global name -> int/None
+        # "self.attr" -> expression (pure properties of the class) and
+        # method name -> (formals, expression) of pure expression-like
+        # zero-argument helper methods: both are inlined by sym()
+        self.inline_props = dict(inline_props or {})
+        self.inline_methods = dict(inline_methods or {})
+        pure_self_methods = tuple(pure_self_methods) + tuple(
+            self.inline_methods)
         self.cfg = cfg_of(fn)
         self.pure_self = set(pure_self_methods)
         self.pure_calls = set(pure_calls) | PURE_FUNCS
@@ -465,6 +472,18 @@ class Flow(object):
         (for the statement's own right-hand side that is what is wanted)."""
         P = Poly
         e = expr
+        if isinstance(e, ast.Call) and self.inline_methods and depth < 25:
+            nm, rc = call_name(e)
+            if rc is not None and chain(rc) == "self" and \
+                    nm in self.inline_methods and not e.keywords and \
+                    not e.args and not self.inline_methods[nm][0]:
+                return self.sym(self.inline_methods[nm][1], node, depth + 1)
+        if isinstance(e, ast.Attribute) and self.inline_props and \
+                depth < 25:
+            c0 = chain(e)
+            if c0 in self.inline_props and \
+                    type(self).__name__ == "Flow":
+                return self.sym(self.inline_props[c0], node, depth + 1)
         if isinstance(e, ast.Constant):
             v = e.value
             if isinstance(v, bool):
@@ -856,7 +875,7 @@ class Flow(object):
         return []
 
     # -- axioms for composite atoms ------------------------------------------------
-    def axioms(self, polys, nonneg=(), limit=6):
+    def axioms(self, polys, nonneg=(), limit=24):
         """Linear axioms about the composite atoms occurring in ``polys`` and
         a list of case splits.  Returns (axioms, splits) where splits is a
         list of alternatives-lists: each alternative is a list of Cons; the
@@ -869,7 +888,8 @@ class Flow(object):
         ax = []
         splits = []
         while todo:
-            a = todo.pop()
+            a = min(todo)           # deterministic order
+            todo.discard(a)
             if a in seen:
                 continue
             seen.add(a)
@@ -1030,17 +1050,59 @@ class Flow(object):
             if s not in splits:
                 splits.append(s)
         prem += ax
+        splits = order_splits(prem, splits, goals)
 
         def rec(i, acc):
             if not feasible(acc, integer):
                 return True    # this case cannot occur
-            if i == len(splits) or i >= 8:
-                return entails(acc, goals, integer)
+            if entails(acc, goals, integer):
+                return True
+            if i == len(splits) or i >= 12:
+                return False
             for alt in splits[i]:
                 if not rec(i + 1, acc + alt):
                     return False
             return True
         return rec(0, prem)
+
+
+def order_splits(prem, splits, goals):
+    """Order case splits by their distance from the goal's atoms in the graph
+    'atoms occurring in one constraint / one split' (the closest first), so
+    that the bounded case analysis spends its depth on the relevant ones."""
+    if len(splits) < 2:
+        return splits
+    groups = [set(c.p.atoms()) for c in prem]
+    satoms = []
+    for sp in splits:
+        acc = set()
+        for alt in sp:
+            for c in alt:
+                acc |= set(c.p.atoms())
+        satoms.append(acc)
+    reach = set()
+    for g in goals:
+        reach |= set(g.p.atoms())
+    order = []
+    left = list(range(len(splits)))
+    for _ in range(len(prem) + len(splits) + 2):
+        hit = [i for i in left if satoms[i] & reach]
+        for i in hit:
+            order.append(i)
+            left.remove(i)
+        new = set(reach)
+        for i in hit:
+            new |= satoms[i]
+        for g in groups:
+            if g & reach:
+                new |= g
+        if new == reach and not hit:
+            break
+        reach = new
+        if not left:
+            break
+    order += left
+    return [splits[i] for i in order]
 
 
 def _walk_no_scopes(root):
